@@ -8,6 +8,7 @@ import (
 	"github.com/tuneinsight/lattigo/v6/ring"
 	"github.com/tuneinsight/lattigo/v6/ring/ringqp"
 
+	"verif/lib/rk"
 	"verif/ref"
 	"verif/uni"
 )
@@ -57,9 +58,25 @@ func CloneFlat(f Flat) Flat {
 // NoiseInf returns ‖phase_sk(el) − want‖∞ with the phase computed independently of the library's
 // decryptor (uni.Phase: CRT of the raw residues, schoolbook products over Z).
 func NoiseInf(params rlwe.Parameters, el *rlwe.Element[ring.Poly], sk *rlwe.SecretKey, want []*big.Int) *big.Int {
-	ph := uni.Phase(params, el, sk)
+	ph := Phase(params, el, sk)
 	Q := uni.QAtLevel(params, el.Level())
 	return ref.InfNorm(uni.SubCentered(ph, want, Q))
+}
+
+// Phase is the independent phase of an element under sk in the ring of the parameters (standard: negacyclic
+// schoolbook products over Z; conjugate invariant: products in the unfolded ring, lib/rk).
+func Phase(params rlwe.Parameters, el *rlwe.Element[ring.Poly], sk *rlwe.SecretKey) []*big.Int {
+	return rk.Phase(params.RingType(), params.RingQ(), el, rk.Secret(params, sk))
+}
+
+// RingFactor bounds a product in the ring: |a*b|_inf <= RingFactor * |a|_inf * |b|_inf. N terms per coefficient in
+// Z[X]/(X^N+1); in Z[X+X^-1]/(X^2N+1) an element with N stored coefficients has 2N-1 non-zero unfolded
+// coefficients, so 2N terms.
+func RingFactor(params rlwe.Parameters) int64 {
+	if params.RingType() == ring.ConjugateInvariant {
+		return int64(2 * params.N())
+	}
+	return int64(params.N())
 }
 
 func bi(v int64) *big.Int { return big.NewInt(v) }
@@ -89,7 +106,7 @@ func mulAll(x *big.Int, ys ...*big.Int) *big.Int {
 //     basis extension; read under s this is <= (levelP+2) * (1 + N*S). No P: no division, no rounding.
 func GadgetNoiseBound(params rlwe.Parameters, lvl int, key *rlwe.GadgetCiphertext, E, S *big.Int) *big.Int {
 	levelP, b2, digits := key.LevelP(), key.BaseTwoDecomposition, key.BaseTwoDecompositionVectorSize()
-	N := bi(int64(params.N()))
+	N := bi(RingFactor(params))
 	q := params.RingQ().ModuliChain()
 	sum := new(big.Int)
 	if levelP > 0 {
